@@ -449,8 +449,8 @@ func (c *grammarClient) quoteParam(e *Engine, arg ast.Expr) bool {
 
 // Inline: helpers that write SQL but are not productions over one node are interpreted in place.
 func (c *grammarClient) Inline(e *Engine, call *ast.CallExpr, callee *types.Func, decl *ast.FuncDecl) bool {
-	if c.g.absorbed[callee] {
-		return true
+	if c.g.absorbed[callee] || inlineClosure(e, decl) {
+		return true // also local closures (writeFrom := func(keyword string) {...})
 	}
 	// helpers that only compute a value (a keyword chosen by a switch, a predicate) are looked into as well
 	return !c.g.emitFns[callee] && e.pureModuleFunc(callee) && smallBody(decl) && !c.g.p.stripsParens(callee)
@@ -643,6 +643,9 @@ func (c *grammarClient) occ(e *Engine, st *State, ev *emitEvent, bk string) *Sta
 
 func (c *grammarClient) PreCall(e *Engine, st *State, call *ast.CallExpr, callee *types.Func) *State {
 	info := e.Info
+	if e.Lit != nil && c.g.p.callOnlyClosure(e.Lit) != nil {
+		return nil // the body of a local closure is seen at each of its calls, with the arguments bound
+	}
 	// hand-off: b.String()
 	if sel, ok := ast.Unparen(call.Fun).(*ast.SelectorExpr); ok && sel.Sel.Name == "String" && isBuilder(info, sel.X) {
 		bk := e.CanonSt(st, sel.X)
@@ -1004,6 +1007,9 @@ func (c *grammarClient) rawOrigin(e *Engine, st *State, ev *emitEvent) string {
 					return "scope"
 				}
 			}
+		}
+		if c.g.p.assembledSQL(id, 0) {
+			return "assembled: text of a checked builder (handed in by every caller, or built by a helper)"
 		}
 		return "tainted: variable " + id.Name
 	}
